@@ -131,7 +131,7 @@ func c05(c *Ctx) {
 		// the filter is applied to the condition that is set (same range element)
 		for _, s := range calls(fn, isSys) {
 			a := cfgx.CallArgs(s)[0]
-			_, p, ok := flow.AccessPath(a)
+			_, p, ok := flow.AccessPathC(a)
 			c.R.Check(ok && strings.HasSuffix(p, "Type"), site(s)+" on-type", c.pos(s.Pos()), "tests the condition's Type", "IsSystemConditionType is not applied to the condition's Type field")
 		}
 	}
@@ -599,7 +599,7 @@ func c05updateXR(c *Ctx, ux *ssa.Function) {
 			switch x := in.(type) {
 			case *ssa.UnOp:
 				if x.Op == token.MUL {
-					if _, p, ok := flow.AccessPath(x); ok && p == "Composite.Ready" {
+					if _, p, ok := flow.AccessPathC(x); ok && p == "Composite.Ready" {
 						if bt, ok := x.Type().Underlying().(*types.Basic); ok && bt.Kind() == types.Bool {
 							t, f := cfgx.CondEdges(x)
 							explicitTrue, explicitFalse = append(explicitTrue, t...), append(explicitFalse, f...)
@@ -610,7 +610,7 @@ func c05updateXR(c *Ctx, ux *ssa.Function) {
 				if x.Op == token.NEQ || x.Op == token.EQL {
 					for _, pr := range [][2]ssa.Value{{x.X, x.Y}, {x.Y, x.X}} {
 						if s, ok := cfgx.ConstString(pr[1]); ok {
-							if r, p, ok := flow.AccessPath(pr[0]); ok && p == "Status" {
+							if r, p, ok := flow.AccessPathC(pr[0]); ok && p == "Status" {
 								if a, ok := r.(*ssa.Alloc); ok {
 									stTests = append(stTests, statusTest{x, a, s})
 								}
